@@ -1674,6 +1674,6 @@ SUBCHECKS = {"machine": stateful.replay(Interp)}
 
 def run(ctx):
     quick = ctx.tier == "quick"
-    total = 1600 if quick else 40000
+    total = 1600 if quick else 32000
     steps = 30 if quick else 60
     stateful.run_machine(ctx, "machine", Interp, INIT, RULES, total // ctx.nshards, steps)
